@@ -4,6 +4,7 @@
 use crate::case::{Case, Loader};
 use crate::tree::{Tree, pattern};
 use rten::{Model, ModelOptions, Value};
+use rten_tensor::prelude::*;
 use vcommon::{Json, catch, from_hex, json, to_hex};
 
 #[derive(Clone, Debug)]
